@@ -29,6 +29,9 @@ MUTANTS = [
     ("C04", "Field_integer_validate_encoded", "field/integer.py", r'"^[-+]?[0-9]+\Z"', r'"^[-+]?[0-9]+$"'),
     ("C18", "Field_identifier_list_gfa2_validate_decoded", "field/identifier_list_gfa2.py", "    if len(obj) == 0:\n      raise gfapy.ValueError(\"the list of identifiers is empty\")\n", ""),
     ("C18", "Field_identifier_list_gfa2_validate_decoded", "field/identifier_list_gfa2.py", '      if not re.match(r"^[!-~]+\\Z", elem):\n        raise gfapy.FormatError(\n        "the list contains', '      if not re.match(r"^[ -~]+\\Z", elem):\n        raise gfapy.FormatError(\n        "the list contains'),
+    ("C15", "DivideSegmentAndConnectionCounts", "graph_operations/multiplication.py", "          processed_circulars.append(l)\n", ""),
+    ("C15", "DivideSegmentAndConnectionCounts", "graph_operations/multiplication.py", "      else:\n        self.__divide_counts(l, factor)\n\n  def __clone", "      else:\n        pass\n\n  def __clone"),
+    ("C15", "DivideSegmentAndConnectionCounts", "graph_operations/multiplication.py", "        if not any(l is p for p in processed_circulars):", "        if any(l is p for p in processed_circulars):"),
     ("C16", "Topology_n_dead_ends", "graph_operations/topology.py", "      if not s.dovetails_R: n+=1", "      if s.dovetails_R: n+=1"),
     ("C16", "Topology_n_containments", "graph_operations/topology.py", "      n += len(s.edges_to_containers)", "      n += len(s.edges_to_contained)"),
     ("C16", "Topology_n_dovetails", "graph_operations/topology.py", "      n += len(s.dovetails_R)\n    return n // 2", "      n += len(s.dovetails_R)\n    return n"),
